@@ -185,6 +185,7 @@ class C15(Prop):
         # translator no longer understands is still judged.
         last_set = {}      # getter method -> (field or None, setter method, value text)
         touched = set()
+        cleared = set()
         reread_seen = False
         self._no_reread = False
         names0 = [k for k, _ in items]
@@ -194,6 +195,11 @@ class C15(Prop):
                 row = self._by.get((ty, p[1]))
                 if out != "ok": return f"setter {p[1]} did not run: {out}"
                 flds = row["fields"] if row else []
+                # "clearing setters remove the field": set_x(None) on a setter that stores in ONE named field
+                if len(p) > 3 and len(flds) == 1:
+                    if p[3] == "N" and row and row["op"] == "OSetOrRemove": cleared.add(flds[0])
+                    else: cleared.discard(flds[0])
+                elif not flds: cleared.clear()
                 for f in flds: touched.add(f)
                 if not flds: touched.add("*")
                 gm = p[1][4:] if p[1].startswith("set_") else None
@@ -226,6 +232,10 @@ class C15(Prop):
                 reread_seen = True
                 if self._no_reread: last_set.clear()
         # frame: fields not named by any setter keep name, value and order; comments stay
+        if r.get("live", "-") != "-":
+            for f in sorted(cleared):
+                if any(k == f for k, _ in parse_items(r["live"])):
+                    return f"field {f} is still there after the clearing setter"
         if r.get("live", "-") != "-" and "*" not in touched:
             live = parse_items(r["live"])
             before = [(k, v) for k, v in items if k not in touched and not self.hand_touched(ty, cid_ops, k)]
